@@ -71,9 +71,9 @@ PROPS = {
         note="Partial: timers are abstract in the LTS (a timer wait is recognised at runtime by a lag above 1 s with a 1.5 s base delay); the back-off arithmetic is modelled over natural numbers with products rounded down, the code computes in float64; gRPC's own re-dialling is outside the model (its configuration is a T1 fact, its effect is observed by engine reconn's outage scenario).",
     ),
     "C12": dict(
-        level="proof", engines=[eng("close", 20, 400, timeout=1500)], labels=["C12"],
+        level="proof", engines=[eng("close", 20, 400, timeout=1500), eng("nodeconn", 40, 800, timeout=900)], labels=["C12"],
         text="Partial. Theorems (Props/C12.lean): after Close, a state in which nothing can move has both goroutines exited (unless the receiver is blocked in the back-pressure wedge); no stream is alive and no request is "
-             "accepted after Close; the exiting sender leaves no request in the queue and the exiting receiver no request unanswered; hence after Close, at rest, nothing is owed — no caller is stranded — outside the back-pressure wedge (closed_rest_owes_nothing). Connections (model NodeConn of RawNode.dial / close, Props/NodeConnP.lean): a node has at most one live connection, the current one; once close has run none is live, no dial is in progress and none can be created again; close is idempotent; each of the four facts this rests on is needed (needs_closesOld, needs_checksClosed, needs_lockedDial, needs_closeCloses). Over the pool (model MgrClose, Props/MgrCloseP.lean: Close's loop interleaved with the dials of the nodes' senders): once Manager.Close has returned every node is closed, no connection of any node is live and no dial is in progress, whatever happens afterwards and however often Close is called again (returned_all_closed, returned_is_final); the loop must reach every node (needs_reachesAll). Tie: send-queue capacity regenerated; the four facts of dial / close (connMu held throughout dial, refusal after close, the replaced connection is closed, close sets the flag and closes under connMu) and 'Manager.Close reaches every node once' read from node.go / mgr.go (nodeConn_good, mgrClose_good); digests of Close / closeNodeConns / RawNode.close / connect / enqueue / sender / receiver / reconnect / "
+             "accepted after Close; the exiting sender leaves no request in the queue and the exiting receiver no request unanswered; hence after Close, at rest, nothing is owed — no caller is stranded — outside the back-pressure wedge (closed_rest_owes_nothing). Connections (model NodeConn of RawNode.dial / close, Props/NodeConnP.lean): a node has at most one live connection, the current one; once close has run none is live, no dial is in progress and none can be created again; close is idempotent; each of the four facts this rests on is needed (needs_closesOld, needs_checksClosed, needs_lockedDial, needs_closeCloses). Over the pool (model MgrClose, Props/MgrCloseP.lean: Close's loop interleaved with the dials of the nodes' senders): once Manager.Close has returned every node is closed, no connection of any node is live and no dial is in progress, whatever happens afterwards and however often Close is called again (returned_all_closed, returned_is_final); the loop must reach every node (needs_reachesAll). Tie: send-queue capacity regenerated; the four facts of dial / close (connMu held throughout dial, refusal after close, the replaced connection is closed, close sets the flag and closes under connMu) and 'Manager.Close reaches every node once' read from node.go / mgr.go (nodeConn_good, mgrClose_good); engine nodeconn: the model NodeConn against the real RawNode.dial / close, operation by operation (dial with the server up / down, close; closed flag, n.conn set, connections not shut down: exact); digests of Close / closeNodeConns / RawNode.close / connect / enqueue / sender / receiver / reconnect / "
              "Multicast / Unicast; engine close: send buffer {0,1,8} x node states x in-flight calls of all types x Close once / twice / concurrently: every in-flight call returns within 3 s, calls after Close fail fast "
              "without panic, client-side library goroutines and the goroutines of the gRPC client connections are gone.",
         note="Partial: goroutine exit and socket closure are observed at runtime, not proved.",
@@ -181,7 +181,7 @@ PROPS = {
         text="Theorems (Props/C11.lean): the object starts at LevelNotSet with no reply; the watcher invariant (closed iff level reached or completed) is preserved by Watch at any "
              "moment and by every publication; the loop never calls set on a completed object; published levels never decrease; only the last snapshot can be completed (done is final); "
              "a strictly higher level is published at once with the quorum function's value and releases the watchers at or below it; done publishes QF's value, releases everything; "
-             "context end / exhaustion (also zero targets; streams: all failed) complete with the right error; every stored reply is a QF value, so the typed accessors never panic; Watch (test and registration) and set are single steps: each runs in one exclusive critical section (atomic_good, read from the tree); 'every node has failed' counts nodes, not errors: a node answers a request with at most one error (Chan: at_most_one_error, the repair of D18), and then the stream arm of the exhaustion test holds exactly when every targeted node has failed (stream_exhausted_iff_all_failed; pinned_double_error_completes shows the count alone says nothing). "
+             "context end / exhaustion (also zero targets; streams: all failed) complete with the right error; every stored reply is a QF value, so the typed accessors never panic; Watch (test and registration) and set are single steps: each runs in one exclusive critical section (atomic_good, read from the tree); over the concurrent model WatchConc (Watch calls interleaved with publications, also non-monotone ones) no watcher is ever stranded — open although its level has been published or the call is completed — at the tree's atomicity (tree_never_stranded), whereas a Watch whose test and registration are separate steps strands a watcher, for good if the call completed (twostep_strands, twostep_strands_for_good); 'every node has failed' counts nodes, not errors: a node answers a request with at most one error (Chan: at_most_one_error, the repair of D18), and then the stream arm of the exhaustion test holds exactly when every targeted node has failed (stream_exhausted_iff_all_failed; pinned_double_error_completes shows the count alone says nothing). "
              "Tie (Tie/C11.lean): initial level, both exhaustion arms and their position, both watcher comparisons and the publication structure of the reply case are regenerated from "
              "correctable.go on every run; digests; exact differential run of all 12 correctable variants (gated arrivals, crashes of a node's server during a stream, snapshots of raw/typed Get, Done and every Watch channel after every arrival) plus a Watch-versus-publication workload (goroutines calling Watch(l) at the instant set publishes l or completes: once both have returned every channel is closed).",
         note="Trusted: Lean kernel; gx; the hand-written loop/object model (tied by T1 facts, digests and the exact T3 run). Not observable without instrumentation: the order in which two "
